@@ -2,5 +2,5 @@
 # Offline setup: build the checker once so that the Go build cache is warm.
 set -eu
 cd /verif
-./build.sh
+./build.sh all
 echo "setup ok"
